@@ -249,6 +249,7 @@ def emit_bin(path, binname, schedules, seed):
     w("#[global_allocator]")
     w("static GLOBAL: simcore::arena::SimAlloc = simcore::arena::SimAlloc;")
     w("")
+    nores_flags = []
     for si, (kind, systems) in enumerate(schedules):
         w(f"mod case{si} {{")
         w("    use super::*;")
@@ -264,31 +265,35 @@ def emit_bin(path, binname, schedules, seed):
         w("        ],")
         w("    };")
         tasks = ", ".join(f"task::{'ParSystem' if s.par else 'System'}(T{ti} {{ st: SysState::default() }})" for ti, s in enumerate(systems))
-        w("    pub fn scheduled(w: &mut Wd, repeats: u32) -> Vec<SysState> {")
-        w(f"        let mut s = schedule!({tasks});")
-        w("        for _ in 0..repeats { w.run_schedule(&mut s); }")
-        acc = "s"
-        states = []
-        for ti in range(len(systems)):
-            states.append(f"{acc}.0 .0.st")
-            acc = f"{acc}.1"
-        w(f"        vec![{', '.join(states)}]")
-        w("    }")
-        w("    pub fn sequential(w: &mut Wd, repeats: u32) -> Vec<SysState> {")
-        for ti, s in enumerate(systems):
-            w(f"        let mut t{ti} = T{ti} {{ st: SysState::default() }};")
-        w("        for _ in 0..repeats {")
-        for ti, s in enumerate(systems):
-            w(f"            w.{'run_par_system' if s.par else 'run_system'}(&mut t{ti});")
-        w("        }")
-        w(f"        vec![{', '.join(f't{ti}.st' for ti in range(len(systems)))}]")
-        w("    }")
+        nores = all(not s.res for s in systems)
+        for suffix, wty in (("", "Wd"), ("0", "Wd0")) if nores else (("", "Wd"),):
+            w(f"    pub fn scheduled{suffix}(w: &mut {wty}, repeats: u32) -> Vec<SysState> {{")
+            w(f"        let mut s = schedule!({tasks});")
+            w("        for _ in 0..repeats { w.run_schedule(&mut s); }")
+            acc = "s"
+            states = []
+            for ti in range(len(systems)):
+                states.append(f"{acc}.0 .0.st")
+                acc = f"{acc}.1"
+            w(f"        vec![{', '.join(states)}]")
+            w("    }")
+            w(f"    pub fn sequential{suffix}(w: &mut {wty}, repeats: u32) -> Vec<SysState> {{")
+            for ti, s in enumerate(systems):
+                w(f"        let mut t{ti} = T{ti} {{ st: SysState::default() }};")
+            w("        for _ in 0..repeats {")
+            for ti, s in enumerate(systems):
+                w(f"            w.{'run_par_system' if s.par else 'run_system'}(&mut t{ti});")
+            w("        }")
+            w(f"        vec![{', '.join(f't{ti}.st' for ti in range(len(systems)))}]")
+            w("    }")
+        nores_flags.append(nores)
         w("}")
         w("")
     w("fn main() {")
     w("    let cases = [")
     for si in range(len(schedules)):
-        w(f"        Case {{ desc: &case{si}::DESC, scheduled: case{si}::scheduled, sequential: case{si}::sequential }},")
+        no_res = f"Some((case{si}::scheduled0, case{si}::sequential0))" if nores_flags[si] else "None"
+        w(f"        Case {{ desc: &case{si}::DESC, scheduled: case{si}::scheduled, sequential: case{si}::sequential, no_resources: {no_res} }},")
     w("    ];")
     w(f"    main_with(\"{binname}\", &cases);")
     w("}")
